@@ -1214,7 +1214,10 @@ class mulgrid(object):
         self.clear_layers()
         from copy import deepcopy
         for lay in geo.layerlist: self.add_layer(deepcopy(lay))
-        for col in self.columnlist: self.set_column_num_layers(col)
+        for col in self.columnlist:
+            # (a surface that is not at the new top has to be written to file:)
+            col.default_surface = (col.surface == self.layerlist[0].bottom)
+            self.set_column_num_layers(col)
         self.setup_block_name_index()
         self.setup_block_connection_name_index()
 
